@@ -11,6 +11,7 @@
 #include <cmath>
 #include <memory>
 
+#include "common/env_locale.hpp"
 #include "common/families.hpp"
 #include "common/refjson.hpp"
 #include "common/runner.hpp"
@@ -326,6 +327,12 @@ int main(int argc, char** argv) {
     check_double(bits, ctx, (bits & 7) == 0);
   };
 
+  static bool g_comma_locale = false;
+  {
+    std::string self = argv[0];
+    size_t sl = self.rfind('/');
+    g_comma_locale = envl::build_comma_locale((sl == std::string::npos ? std::string(".") : self.substr(0, sl)) + "/locale_comma");
+  }
   // D7: the floating-point ENVIRONMENT. Printing works on the bit pattern; a process that runs with denormals-are-zero /
   // flush-to-zero (every program linked with -ffast-math) or a non-default rounding mode must get the same text
   vr::Family d7;
@@ -333,7 +340,7 @@ int main(int argc, char** argv) {
   d7.count = (uint64_t)pats.size() * 6 * 2;
   d7.group = "D7";
   d7.chunk = 1024;
-  d7.rule = "every significand pattern at biased exponents 0 (subnormal), 1, 2, 1023, 1075, 2046, both signs, printed under MXCSR = default, DAZ|FTZ, round-toward-zero, round-up: F64toa and Dump() must give the text of the default environment (which the other families check)";
+  d7.rule = "every significand pattern at biased exponents 0 (subnormal), 1, 2, 1023, 1075, 2046, both signs, printed under MXCSR = default, DAZ|FTZ, round-toward-zero, round-up, and in a process locale whose decimal point is ',': F64toa and Dump() must give the text of the default environment (which the other families check)";
 
   vr::CheckFn check = [&](const vr::Family& f, uint64_t idx, vr::Ctx& ctx) {
     const std::string& nm = f.name;
@@ -354,6 +361,18 @@ int main(int argc, char** argv) {
       ctx.nontriv();
       char ref_out[64];
       size_t ref_n = (size_t)internal::F64toa(ref_out, v);
+      if (g_comma_locale) {
+        // the process locale (decimal point ','): printing must not consult it
+        setlocale(LC_NUMERIC, "xx_XX");
+        char out[64];
+        size_t n = (size_t)internal::F64toa(out, v);
+        Document dl;
+        dl.SetDouble(v);
+        std::string dump = dl.Dump();
+        setlocale(LC_NUMERIC, "C");
+        if (n != ref_n || std::memcmp(out, ref_out, n) != 0 || dump != std::string(ref_out, ref_n))
+          ctx.violation("ftoa_fp_environment", "ftoa_process_locale", std::string(ref_out, ref_n), "bits=%016llx: F64toa prints '%.*s' / Dump '%s' in a locale with decimal point ',' but '%.*s' in the C locale", (unsigned long long)bits, (int)n, out, dump.c_str(), (int)ref_n, ref_out);
+      }
       const unsigned saved = _mm_getcsr();
       static const unsigned envs[3] = {0x8040u /* DAZ | FTZ */, 0x6000u /* round toward zero */, 0x4000u /* round up */};
       static const char* envn[3] = {"DAZ|FTZ", "round-toward-zero", "round-up"};
